@@ -17,12 +17,17 @@ const monBLS = "TestVerifBLS12381"
 
 // blsAPI adapts circl's G1 / G2 to one shape.
 type blsAPI struct {
-	name   string
-	g      *c09ref.BLSGroup
-	set    func(in []byte) (ok bool, ser func() (comp, unc []byte)) // decode; ser re-serialises the decoded value
-	mulGen func(k *big.Int) (comp, unc []byte)
-	hash   func(msg []byte) (comp, unc []byte)
-	equal  func(a, b []byte) bool // both decode and circl says they are the same element
+	name string
+	g    *c09ref.BLSGroup
+	set  func(in []byte) (ok bool, ser func() (comp, unc []byte)) // decode; ser re-serialises the decoded value
+	// cancel serialises kG + (-kG): the identity as arithmetic leaves it (its
+	// internal coordinates are whatever the addition formulas produce)
+	cancel func(k *big.Int) (comp, unc []byte)
+	// setUsed decodes prime and then in into the same receiver
+	setUsed func(prime, in []byte) (ok bool, ser func() (comp, unc []byte))
+	mulGen  func(k *big.Int) (comp, unc []byte)
+	hash    func(msg []byte) (comp, unc []byte)
+	equal   func(a, b []byte) bool // both decode and circl says they are the same element
 }
 
 func blsScalar(k *big.Int) *bls12381.Scalar {
@@ -33,6 +38,24 @@ func blsScalar(k *big.Int) *bls12381.Scalar {
 
 var apiG1 = &blsAPI{
 	name: "G1", g: c09ref.BLSG1,
+	cancel: func(k *big.Int) ([]byte, []byte) {
+		var p, q, s bls12381.G1
+		p.ScalarMult(blsScalar(k), bls12381.G1Generator())
+		q = p
+		q.Neg()
+		s.Add(&p, &q)
+		return s.BytesCompressed(), s.Bytes()
+	},
+	setUsed: func(prime, in []byte) (bool, func() ([]byte, []byte)) {
+		var p bls12381.G1
+		if p.SetBytes(prime) != nil {
+			return false, nil
+		}
+		if err := p.SetBytes(in); err != nil {
+			return false, nil
+		}
+		return true, func() ([]byte, []byte) { return p.BytesCompressed(), p.Bytes() }
+	},
 	set: func(in []byte) (bool, func() ([]byte, []byte)) {
 		var p bls12381.G1
 		if err := p.SetBytes(in); err != nil {
@@ -58,6 +81,24 @@ var apiG1 = &blsAPI{
 
 var apiG2 = &blsAPI{
 	name: "G2", g: c09ref.BLSG2,
+	cancel: func(k *big.Int) ([]byte, []byte) {
+		var p, q, s bls12381.G2
+		p.ScalarMult(blsScalar(k), bls12381.G2Generator())
+		q = p
+		q.Neg()
+		s.Add(&p, &q)
+		return s.BytesCompressed(), s.Bytes()
+	},
+	setUsed: func(prime, in []byte) (bool, func() ([]byte, []byte)) {
+		var p bls12381.G2
+		if p.SetBytes(prime) != nil {
+			return false, nil
+		}
+		if err := p.SetBytes(in); err != nil {
+			return false, nil
+		}
+		return true, func() ([]byte, []byte) { return p.BytesCompressed(), p.Bytes() }
+	},
 	set: func(in []byte) (bool, func() ([]byte, []byte)) {
 		var p bls12381.G2
 		if err := p.SetBytes(in); err != nil {
@@ -129,6 +170,25 @@ func (a *blsAPI) judge(c tc, subOneIn uint64) {
 			lib.Count("decoder-accepted:" + entry)
 			viol("accepted-value-panics-on-reserialisation", entry, "", monBLS, "class", c.class, "input", in, "panic", p.Value)
 			return
+		}
+	}
+	if c.prime != nil && a.setUsed != nil {
+		// the same string into a receiver that holds the valid point it was
+		// derived from: verdict and value must not depend on the receiver
+		var ok2 bool
+		var ser2 func() ([]byte, []byte)
+		if p := lib.Try(entry+"/used-receiver", in, func() { ok2, ser2 = a.setUsed(c.prime, in) }); p == nil {
+			lib.Count("used-receiver:" + a.name)
+			same := ok2 == ok
+			if same && ok {
+				c2, u2 := ser2()
+				same = lib.Eq(c2, comp) && lib.Eq(u2, unc)
+			}
+			if !same {
+				viol("noncanonical-accepted", entry, "decoder-result-depends-on-receiver-history", monBLS, "class", c.class, "input", in,
+					"receiver_held", c.prime, "fresh_receiver_accepts", ok, "used_receiver_accepts", ok2)
+				return
+			}
 		}
 	}
 	v := a.ref(in, false)
@@ -231,6 +291,11 @@ func (a *blsAPI) validPoints(r *lib.Rng, nRand, nHash, nRef int) []blsValid {
 	for i := 0; i < nHash; i++ {
 		add(a.hash(r.Bytes(1 + r.Intn(40))))
 	}
+	// the identity as the sum of a point and its negative (24 different points)
+	for i := 0; i < 24; i++ {
+		add(a.cancel(randBelow(r, a.g.R)))
+		lib.Count("identity-from-cancellation:" + a.name)
+	}
 	// encodings produced by the reference alone (never seen by circl's encoder)
 	for i := 0; i < nRef; i++ {
 		p := a.g.C.Mul(randBelow(r, a.g.R), a.g.G)
@@ -315,8 +380,8 @@ func (a *blsAPI) workload(r *lib.Rng, q struct{ rnd, hash, ref, flipC, flipU, of
 				if xc[ci].BitLen() > limit {
 					break
 				}
-				w.add("coordinate-plus-p", rawEnc(0x80|sort, xc...))
-				w.add("coordinate-plus-p", rawEnc(0, append(xc, ys...)...))
+				w.addPrimed("coordinate-plus-p", rawEnc(0x80|sort, xc...), rawEnc(0x80|sort, xs...))
+				w.addPrimed("coordinate-plus-p", rawEnc(0, append(xc, ys...)...), rawEnc(0, append(append([]*big.Int(nil), xs...), ys...)...))
 			}
 		}
 		for ci := range ys {
@@ -326,7 +391,7 @@ func (a *blsAPI) workload(r *lib.Rng, q struct{ rnd, hash, ref, flipC, flipU, of
 				if yc[ci].BitLen() > 384 {
 					break
 				}
-				w.add("coordinate-plus-p", rawEnc(0, append(append([]*big.Int(nil), xs...), yc...)...))
+				w.addPrimed("coordinate-plus-p", rawEnc(0, append(append([]*big.Int(nil), xs...), yc...)...), rawEnc(0, append(append([]*big.Int(nil), xs...), ys...)...))
 			}
 		}
 	}
